@@ -10,14 +10,19 @@
    every point, and each recorded schedule is replayed through [cxstep]. *)
 From Tx Require Import Common.Base Common.ListZ Ctx.Model Ctx.Proofs.
 
-(* When an operation returns - after any interleaving with cancellation and data arrival -
+(* [tainted s = false] below says that the wrapped connection has so far accepted every call that sets its deadline. A connection
+   that refuses such a call (modelled too: EN_refuse, EW_set_past_fail, EW_restore_fail, so that the recorded error and the byte
+   counts are compared with the code) can be left with the forced deadline - no wrapper could take it back - and nothing is
+   claimed about deadlines after that; the byte count and the context-error rule of C17_return hold regardless.
+
+   When an operation returns - after any interleaving with cancellation and data arrival -
    its watcher has exited, the wrapped connection carries no forced deadline, the byte count reported
    is the wrapped operation's, and the context's error is reported exactly when the context is over and
    no byte was transferred (so a cancelled operation that reports zero bytes has transferred none, and
    bytes that were transferred are never hidden behind an error). *)
 Theorem C17_return : forall h s,
   cxrun cx0 h = Some s -> mp s = MRet ->
-  wp s = WEnd /\ dl_past s = false /\ ret_n s = op_n s /\
+  wp s = WEnd /\ (tainted s = false -> dl_past s = false) /\ ret_n s = op_n s /\
   (ret_ctx_err s = true <-> cancelled s = true /\ op_n s = 0).
 Proof. exact return_state. Qed.
 Print Assumptions C17_return.
@@ -25,20 +30,20 @@ Print Assumptions C17_return.
 (* The next operation (live context) starts on a wrapped connection without a leftover deadline and
    without a watcher of an earlier operation still running. *)
 Theorem C17_no_leftover_deadline : forall h s,
-  cxrun cx0 h = Some s -> mp s = M0 -> dl_past s = false /\ wp s = WNone.
+  cxrun cx0 h = Some s -> mp s = M0 -> tainted s = false -> dl_past s = false /\ wp s = WNone.
 Proof. exact next_op_clean. Qed.
 Print Assumptions C17_no_leftover_deadline.
 
 (* The wrapper forces a deadline only after the operation's own context has ended, and the wrapped
    operation times out only for that reason: with a live context it behaves like the wrapped connection. *)
 Theorem C17_deadline_only_after_cancel : forall h s,
-  cxrun cx0 h = Some s ->
+  cxrun cx0 h = Some s -> tainted s = false ->
   (dl_past s = true -> cancelled s = true /\ (wp s = W5 \/ wp s = WRestore)) /\
   (op_timeout s = true -> cancelled s = true).
 Proof.
-  intros h s Hr. split.
-  - exact (forced_deadline_only_after_cancel h s Hr).
-  - exact (timeout_only_after_cancel h s Hr).
+  intros h s Hr Ht. split.
+  - exact (forced_deadline_only_after_cancel h s Hr Ht).
+  - exact (timeout_only_after_cancel h s Hr Ht).
 Qed.
 Print Assumptions C17_deadline_only_after_cancel.
 
@@ -47,13 +52,13 @@ Print Assumptions C17_deadline_only_after_cancel.
    wrapped connection itself blocks). In particular once the context is over some goroutine can always
    move until the operation has returned ... *)
 Theorem C17_blocked_only_like_wrapped : forall h s,
-  cxrun cx0 h = Some s -> can_move s = false ->
+  cxrun cx0 h = Some s -> tainted s = false -> can_move s = false ->
   mp s = MRet \/ (mp s = MOp /\ ready s = false /\ cancelled s = false).
 Proof. exact blocked_only_like_wrapped. Qed.
 Print Assumptions C17_blocked_only_like_wrapped.
 
 Theorem C17_cancelled_can_move : forall h s,
-  cxrun cx0 h = Some s -> cancelled s = true -> mp s <> MRet -> can_move s = true.
+  cxrun cx0 h = Some s -> tainted s = false -> cancelled s = true -> mp s <> MRet -> can_move s = true.
 Proof. exact cancelled_can_move. Qed.
 Print Assumptions C17_cancelled_can_move.
 
@@ -105,5 +110,12 @@ Example C17_empty_transfer :
             /\ mp s = MRet /\ ret_ctx_err s = false /\ ret_own_err s = false /\ ret_n s = 0.
 Proof. eexists. vm_compute. repeat split. Qed.
 
-Example C17_reach_size : length reach = 260%nat.
+(* a refused restore: the partial write's byte count still comes back, the recorded error does not hide it *)
+Example C17_refused_restore_keeps_count :
+  exists s, cxrun cx0 [EM_lock; EM_check; EM_add; EM_go; EN_half; EN_cancel; EW_ctx; EW_set_past; EM_op_partial; EM_close_done;
+                       EW_recv_done; EN_refuse; EW_restore_fail; EM_wait_return] = Some s
+            /\ mp s = MRet /\ ret_n s = 1 /\ ret_ctx_err s = false /\ ret_set_err s = false /\ tainted s = true.
+Proof. eexists. vm_compute. repeat split. Qed.
+
+Example C17_reach_size : length reach = 1776%nat.
 Proof. vm_compute. reflexivity. Qed.
